@@ -591,7 +591,9 @@ pub fn o_waiter_order(a: &Analysis) -> Vec<Violation> {
         .iter()
         .filter(|r| single(r.kind))
         .filter_map(|r| {
-            let reg = a.d.recs[r.rec].reg?;
+            // the position a waiter holds is the one of its LAST registration (an implementation may move a future to the
+            // tail when it is polled with a new waker; C15 speaks of the OTHER waiters' order)
+            let reg = a.d.recs[r.rec].reg_last?;
             let id = match &r.ident {
                 Ident::Id(i) => *i,
                 _ => return None,
